@@ -78,6 +78,7 @@ class Router:
                 upper_protocol_entity=request.btp_type,
                 packet_transport_type=request.gn_packet_transport_type,
                 area=request.gn_area,
+                destination=request.gn_destination_address,
                 communication_profile=request.communication_profile,
                 traffic_class=request.traffic_class,
                 security_profile=request.security_profile,
@@ -101,6 +102,7 @@ class Router:
                 upper_protocol_entity=request.btp_type,
                 packet_transport_type=request.gn_packet_transport_type,
                 area=request.gn_area,
+                destination=request.gn_destination_address,
                 communication_profile=request.communication_profile,
                 traffic_class=request.traffic_class,
                 security_profile=request.security_profile,
